@@ -7,6 +7,15 @@ HERE = os.path.dirname(os.path.dirname(os.path.abspath(__file__)))
 PROOF = "proof"
 # id -> (claimed?, level text, level note, technique, design section)   or (False, reason)
 CHECKS = {
+    "C16": (True,
+            "Coq proofs: Debug-name table round trip over the source-translated fs-kind family (all 41 kinds), Tag->SerdeTag->Tag identity "
+            "over the full integer ranges, SerdeTag<->JSON-tree and whole-event round trips (any tags, any sorted metadata map), "
+            "field/kind/value names equal to the documented ones, and totality: any field combination yields a tag of its own kind "
+            "or Unknown. The model's encoder and decoder are run against serde on generated events and on mutated/malformed tag objects.",
+            "Trusted: Coq kernel, translator, harness; serde derive + serde_json mechanics are modelled at the JSON-tree level and sampled "
+            "(incl. 200+ error cases per run). No axioms.",
+            "Rocq/Coq proof over source-translated enums and tables + differential correspondence on generated and malformed JSON",
+            "DESIGN.md section 6 C16"),
     "C19": (True,
             "Coq proofs over source-translated signal tables: display/parse round trip for every signal, case-insensitivity for all strings, agreement of the three spellings, Windows-name precedence, POSIX numbers, wait-status decoding for all codes and signals, the --map-signal splitter; model run against the real crates exhaustively over numbers, names in all case patterns and wait statuses.",
             "Trusted: Coq kernel, translator, harness; nix signal table, i32::from_str, to_ascii_uppercase, ExitStatusExt are modelled (nix table compared exhaustively each run). No axioms.",
